@@ -400,7 +400,14 @@ mod inner {
         }
 
         pub fn push(&mut self, value: f64) {
-            self.inner.push(value);
+            // The compact variant can only store positive values and treats
+            // everything else as zero. Do the same here so that the
+            // `raw_strains` feature does not change any result.
+            if value.to_bits() > 0 && value.is_sign_positive() {
+                self.inner.push(value);
+            } else {
+                self.inner.push(0.0);
+            }
         }
 
         pub fn sort_desc(&mut self) {
